@@ -32,7 +32,10 @@ CONSTANTS
     Version,      \* 20 | 21 : attribute encoding ("Attributes" blob | "Attributes Jsons" list)
     Deviations,   \* subset of AllDeviations
     MaxLevel,     \* behaviours are cut after MaxLevel actions
-    Acts          \* names of the enabled actions
+    Acts,         \* names of the enabled actions
+    Kind          \* "float" | "text" : primitive type of the payload data a, b (the harness maps value tokens to
+                  \* floats or to labels of different lengths); TextData.values has no length check, so text
+                  \* values are only re-assigned with the table's length
 
 VARIABLES s, last
 vars == <<s, last>>
@@ -113,7 +116,9 @@ UpdateArray(S, lab, byData, ob, da, vals, append) ==
 \* ------------------------------------------------------------------ storage: attribute records
 \* record = [id, kind in {"hole","data","pg","empty"}, name, keys (hole: <<[n,d]>> = 'Property:<n>': d),
 \*           props (pg: Properties), ptype (pg)]
-Rec(id, kind, name) == [id |-> id, kind |-> kind, name |-> name, keys |-> <<>>, props |-> <<>>, ptype |-> ""]
+\*           ad = 'Allow delete' (holes and data; the python object's flag and the record change together:
+\*           Entity.allow_delete setter -> update_attributes(entity, "attributes"))
+Rec(id, kind, name) == [id |-> id, kind |-> kind, name |-> name, keys |-> <<>>, props |-> <<>>, ptype |-> "", ad |-> TRUE]
 RecIdx(S, id) == IndexOf(S.akeys, id)
 HasRec(S, id) == RecIdx(S, id) # 0
 \* Concatenator.get_concatenated_attributes (405-430): an unknown uid APPENDS an empty record
@@ -245,7 +250,8 @@ CreateData(S, h, d, name, vals) ==
     LET S1 == [S EXCEPT !.hs[h].ch = Append(@, [id |-> d, name |-> name, vals |-> vals, ver |-> 1])]
         hr == GetRec(S1, h)
         S2 == IF HasKey(hr, name) THEN S1 ELSE SetRec(S1, h, [hr EXCEPT !.keys = Append(@, [n |-> name, d |-> d])])
-        S3 == SetRec(S2, d, Rec(d, "data", name))                             \* update_concatenated_attributes
+        \* update_concatenated_attributes; DEPTH / FROM / TO are created with allow_delete=False (drillhole.py:263-270)
+        S3 == SetRec(S2, d, [Rec(d, "data", name) EXCEPT !.ad = name \notin {"DEPTH", "FROM", "TO"}])
     IN UpdateArray(S3, name, TRUE, h, d, vals, TRUE)                          \* update_array_attribute(child, child.name)
 \* ObjectBase.add_data_to_group -> PropertyGroup.add_properties (property_group.py:79-100)
 AddToGroup(S, h, p, d) ==
@@ -317,9 +323,11 @@ ApiView(S) == [h \in Holes |->
                  ELSE
                  [live |-> TRUE,
                   names |-> KeyNames(GetRec(S, h)),
+                  ad |-> GetRec(S, h).ad,                                                \* hole.allow_delete
                   children |-> [i \in DOMAIN S.hs[h].ch |-> S.hs[h].ch[i].name],     \* Data objects in hole.children
                   vals |-> [k \in DOMAIN GetRec(S, h).keys |->
-                              [n |-> GetRec(S, h).keys[k].n, v |-> ReadLive(S, h, GetRec(S, h).keys[k].n)]],
+                              [n |-> GetRec(S, h).keys[k].n, v |-> ReadLive(S, h, GetRec(S, h).keys[k].n),
+                               ad |-> IF HasRec(S, GetRec(S, h).keys[k].d) THEN GetRec(S, GetRec(S, h).keys[k].d).ad ELSE TRUE]],
                   pgs |-> [i \in DOMAIN S.hs[h].pgs |->
                              [name |-> S.hs[h].pgs[i].name, ptype |-> S.hs[h].pgs[i].ptype,
                               props |-> [j \in DOMAIN S.hs[h].pgs[i].props |->
@@ -483,7 +491,7 @@ SetValues ==
              c == s.hs[h].ch[ci]
              n == Len(c.vals)
          IN /\ c.vals # NoneVals
-            /\ \E k \in KChoices(n) :
+            /\ \E k \in (IF Kind = "text" THEN {n} ELSE KChoices(n)) :
                  LET v == NewVer(c.ver)
                      vals == Toks(c.id, v, k)
                      args == [h |-> h, name |-> name, vals |-> vals]
@@ -521,16 +529,27 @@ CascadeNames(h, name) ==       \* names that go away with `name`: the table's de
 
 \* hole.remove_children([data])  |  workspace.remove_entity(data) (workspace.py:601-614)
 RemoveData(via) ==
-    \E h \in Holes, name \in Names :
+    \E h \in Holes, name \in (IF via = "ws" THEN DataLabels ELSE Names) :
       /\ Usable(h)
       /\ ChildIdxByName(s.hs[h], name) # 0
       /\ LET c == s.hs[h].ch[ChildIdxByName(s.hs[h], name)]
              args == [h |-> h, name |-> name]
              tgt == [holes |-> {h}, names |-> CascadeNames(h, name)]
              act == IF via = "ws" THEN "RemoveDataViaWorkspace" ELSE "RemoveDataViaParent"
-         IN IF via = "ws" /\ Dev("WsRemoveKeepsChild")
+         IN IF via = "ws" /\ ~GetRec(s, c.id).ad            \* Workspace.remove_entity: allow_delete is checked first -> UserWarning
+            THEN Refused(act, args)
+            ELSE IF via = "ws" /\ Dev("WsRemoveKeepsChild")
             THEN Done(RemoveDataCore(s, h, c.id), act, args, "ok", {"WsRemoveKeepsChild"}, tgt)   \* the child stays in hole._children
             ELSE Done(RemoveChild(s, h, c.id), act, args, "ok", {}, tgt)
+
+\* entity.allow_delete = False on a hole (name = "") or on one of its payload data
+Protect ==
+    \E h \in Holes, name \in Names \cup {""} :
+      /\ Usable(h)
+      /\ name # "" => ChildIdxByName(s.hs[h], name) # 0
+      /\ LET id == IF name = "" THEN h ELSE s.hs[h].ch[ChildIdxByName(s.hs[h], name)].id
+         IN /\ GetRec(s, id).ad
+            /\ Done(SetRec(s, id, [GetRec(s, id) EXCEPT !.ad = FALSE]), "Protect", [h |-> h, name |-> name], "ok", {}, NoTgt)
 
 \* group.remove_children([hole])  |  workspace.remove_entity(hole)  -> remove_entity(hole) (497-504, 515-522)
 RemoveHole(via) ==
@@ -546,7 +565,9 @@ RemoveHole(via) ==
              S3 == IF Dev("HoleRemovalKeepsObjectRows") THEN S2
                    ELSE UpdateArray(UpdateArray(S2, "Surveys", FALSE, h, 0, <<>>, FALSE), "PGIDS", FALSE, h, 0, <<>>, FALSE)
              S4 == IF Dev("HoleRemovalKeepsGroupChild") THEN S3 ELSE [S3 EXCEPT !.gch = Without(@, h)]
-         IN IF Unclean(s, h)         \* a child the record does not list: del parent_attr['Property:<name>'] -> KeyError
+         IN IF via = "ws" /\ ~GetRec(s, h).ad       \* protected hole: UserWarning, nothing changes
+            THEN Refused(act, args)
+            ELSE IF Unclean(s, h)         \* a child the record does not list: del parent_attr['Property:<name>'] -> KeyError
             THEN Done([s EXCEPT !.broken = TRUE], act, args, "raises",
                       IF \E i \in DOMAIN s.hs[h].ch : \A k \in DOMAIN GetRec(s, h).keys : GetRec(s, h).keys[k].d # s.hs[h].ch[i].id
                       THEN {"WsRemoveKeepsChild"} ELSE {"RenameKeepsLabel"}, tgt)
@@ -633,6 +654,7 @@ Next ==
                   \/ Enabled("AddValuesToTable") /\ AddValuesToTable
                   \/ Enabled("Reopen") /\ Reopen
                   \/ Enabled("CopyGroup") /\ CopyGroup
+                  \/ Enabled("Protect") /\ Protect
        \* every state reached by the last allowed action is still re-opened once (read back from the file)
        \/ TLCGet("level") = MaxLevel + 1 /\ Enabled("Reopen") /\ Reopen
 Spec == Init /\ [][Next]_vars
@@ -702,6 +724,10 @@ Isolation ==
              /\ (last'.act # "Reopen" => ReadLive(s', h, n) = ReadLive(s, h, n))
              /\ ReadStore(s', h, n) = ReadStore(s, h, n)]_vars
 
+\* workspace.remove_entity on an entity whose allow_delete is off changes nothing
+ProtectedStay ==
+    [][(last'.act \in {"RemoveHoleViaWorkspace", "RemoveDataViaWorkspace"} /\ last'.out = "refused") => s' = s]_vars
+
 InvNames == <<"AllTiled", "NoDuplicateOwner", "RowsOwnedLive", "OneRecordEach", "KeysMatchChildren",
               "PgsConsistent", "ReadBackOK", "TableOK", "NeverBroken", "GroupChildrenLive", "PgCacheFresh">>
 InvVals == <<AllTiled, NoDuplicateOwner, RowsOwnedLive, OneRecordEach, KeysMatchChildren,
@@ -710,7 +736,7 @@ Bad == IF s.broken THEN {"NeverBroken"} ELSE {InvNames[i] : i \in {j \in DOMAIN 
 
 \* ------------------------------------------------------------------ export (harness/tlc.py)
 ExportState == PrintT(<<"ST", TLCFP(vw), TLCFP(<<vw, 1>>),
-                        ToJson([s |-> s, version |-> Version,
+                        ToJson([s |-> s, version |-> Version, kind |-> Kind,
                                 api |-> IF s.broken THEN <<>> ELSE ApiView(s),
                                 tables |-> IF s.broken THEN <<>> ELSE TableView(s),
                                 bad |-> Bad])>>)
